@@ -100,6 +100,67 @@ CLAIMED['C15'] = dict(
          'during the sender\'s step (their own execution is a separate operation).',
     technique='Coq proof (listener fold lemmas) + step-local differential correspondence via vm_compute')
 
+CLAIMED['C03'] = dict(
+    category='proof',
+    text='Coq theorems over the interpreter model, for every chart, evaluator and listener: the code fragments executed by an '
+         'execute_once that returns a macro step are, in order, exactly exit code of the exited states / action / entry code '
+         'of the entered states of each returned micro step, the events they sent are exactly the sent lists, and the new '
+         'configuration is the replay of the exited/entered lists (C03_trace_truth, C03_sent_truth, C03_config_truth, '
+         'C03_macro_config); the order theorems (atomic blocks transition+stabilisation, transitions by decreasing source depth '
+         'then name, exits innermost-first and siblings by name, entries outermost-first) are in C03Proofs when registered. '
+         'Tied to default.py by one-operation correspondence cases: the complete list of micro steps (order of transitions, '
+         'exited/entered order, sent events) and the evaluator call log are compared with the model run by vm_compute; charts '
+         'are generated with sibling names in non-alphabetical declaration order; the replay checker runs on every '
+         'implementation output.',
+    design_ref='DESIGN.md section 6 (C03)',
+    note='Trusted: Coq kernel+VM; hand-written model validated differentially on generated cases only; names_coherent (a state '
+         'registered under a name has that name) for the statements phrased with MicroStep names.',
+    technique='Coq proof (observation-trace lemmas) + step-local differential correspondence via vm_compute')
+CLAIMED['C06'] = dict(
+    category='proof',
+    text='Coq theorems over the interpreter model: a micro step records, for every exited compound state, the children '
+         '(shallow) / descendants (deep) active at the start of that micro step and changes no other memory entry '
+         '(C06_record_step); a step restoring history state h enters exactly the remembered states by (depth, name), parents '
+         'first, or the default memory (C06_restore, C06_restore_parents_first); over ANY run, what is entered is the active '
+         'scope of the parent in the configuration just before the LAST micro step that exited the parent, whatever happened in '
+         'between, and the default memory if it was never exited (C06_run, C06_run_last_exit, C06_run_fresh); stabilisation '
+         'continues below a restored state (C06_continue); no history state stays active. Tied to default.py by one-operation '
+         'correspondence cases (memory, entered/exited lists) and by the history replay checker hist_replay (proved sound: '
+         'C06_replay_sound) evaluated on every implementation output.',
+    design_ref='DESIGN.md section 6 (C06)',
+    note='Trusted: Coq kernel+VM; hand-written model validated differentially on generated cases only; names_ok and tree_ok '
+         '(part of DESIGN.md section 2) where stated.',
+    technique='Coq proof (run induction with ghost history) + step-local differential correspondence via vm_compute')
+CLAIMED['C08'] = dict(
+    category='proof',
+    text='Coq theorems over the interpreter model, for every chart, evaluator and listener: with checking on, the evaluator calls '
+         'of execute_once are guard evaluations followed by EXACTLY the documented slots of the returned micro steps and the '
+         'invariants of the resulting configuration, each once, in order, also for an empty step (C08_execute_once_points_doc, '
+         'C08_execute_once_empty_config); when a Pre/Post/InvariantError is raised the newest observation is the evaluation of '
+         'exactly the carried condition of the carried owner, it was false, everything before succeeded and nothing follows '
+         '(C08_first_failure, C08_first_raise); __old__ is the context just before the state was entered / the transition action '
+         'ran and only precondition evaluation writes the store (C08_old_*). Tied to python.py/default.py by one-operation '
+         'correspondence cases in which every single condition occurrence can be made to fail (contract bits): call log with '
+         'what each call sees (event, __old__, after/idle base, sent), error payload; slot and first-failure checkers run on '
+         'every implementation output.',
+    design_ref='DESIGN.md section 6 (C08)',
+    note='Trusted: Coq kernel+VM; hand-written model validated differentially on generated cases only; conditions are pure (WF8); '
+         'emit_clean (listeners raise no ContractError of their own) for the first-failure theorems.',
+    technique='Coq proof (play relation over documented slots) + step-local differential correspondence via vm_compute')
+CLAIMED['C09'] = dict(
+    category='proof',
+    text='Coq theorems over the interpreter model: with ignore_contract=True no condition is evaluated and no ContractError arises '
+         '(C09_ignore_silent); if the checking run meets no false/erring condition, the ignoring run from a state equal up to the '
+         'flag and the __old__ store returns the same results and ends in such a state again, with the same listener state and '
+         'the same trace minus contract evaluations - for one step and for any operation sequence (C09_transparent, C09_run); '
+         'the __old__ store is never read when ignoring. Tied to the code by one-operation correspondence cases under '
+         'ignore_contract=True and by lock-step runs of the implementation under both settings (generated charts and the '
+         'shipped elevator/microwave contract charts).',
+    design_ref='DESIGN.md section 6 (C09)',
+    note='Trusted: Coq kernel+VM; hand-written model validated differentially; conditions are pure (WF8): the evaluator type gives '
+         'conditions no way to change the context.',
+    technique='Coq proof (one-step simulation + induction) + differential correspondence and metamorphic lock-step runs')
+
 NOT_YET = {}
 
 ALL = ['C%02d' % i for i in range(1, 21)]
